@@ -26,7 +26,7 @@ type counters struct {
 	lines, agreeAccept, agreeReject, skip, dev int64
 	totalParses, truncations, junk, junkAccepted int64
 	sideEffectRuns, recorded, storeCommentsParses int64
-	fileSetParses, posChecked int64
+	fileSetParses, posChecked, runs int64
 }
 
 type state struct {
@@ -239,6 +239,34 @@ func (s *state) noSideEffect(src string) {
 	}
 }
 
+// runLine: the text is evaluated on a runtime; the specification says whether it must complete or throw.
+// A Go panic out of Run is a totality violation whatever the specification says.
+func (s *state) runLine(c *core.Ctx, l *c03.Line, src string) {
+	atomic.AddInt64(&s.n.runs, 1)
+	b := s.vms.Get().(*vmBox)
+	var err error
+	panicked := ""
+	func() {
+		defer func() {
+			if r := recover(); r != nil {
+				panicked = fmt.Sprint(r)
+			}
+		}()
+		_, err = b.vm.Run(src)
+	}()
+	if panicked != "" {
+		c.Violate(fmt.Sprintf("[%s/%s] Run of %q panicked: %s", l.Fam, l.Tag, src, trunc(panicked, 200)), map[string]any{"src": src, "panic": panicked})
+		return // the runtime is not reused
+	}
+	s.vms.Put(b)
+	switch {
+	case l.Run == "ok" && err != nil:
+		c.Violate(fmt.Sprintf("[%s/%s] %q throws (%s); the specification: completes", l.Fam, l.Tag, src, trunc(err.Error(), 120)), map[string]any{"src": src, "error": err.Error(), "specification": "ok"})
+	case l.Run == "throw" && err == nil:
+		c.Violate(fmt.Sprintf("[%s/%s] %q completes; the specification: throws", l.Fam, l.Tag, src), map[string]any{"src": src, "specification": "throw"})
+	}
+}
+
 func expClass(raw json.RawMessage) string {
 	var e struct {
 		C string `json:"c"`
@@ -250,6 +278,9 @@ func expClass(raw json.RawMessage) string {
 // handle: one generated line (token-level mutant or early-error seed).
 func (s *state) handle(c *core.Ctx, l *c03.Line, src string, st *c03.Stats) error {
 	atomic.AddInt64(&s.n.lines, 1)
+	if l.Run != "" {
+		s.runLine(c, l, src)
+	}
 	out := s.total(src, 0, l.Fam+"/"+l.Tag)
 	if out.C == "panic" || out.C == "hang" {
 		return nil
@@ -345,7 +376,7 @@ func Check(c *core.Ctx) (map[string]any, []string, error) {
 		nsel, nJunk, s.maxRecs, s.truncMod = 0, 4000000, 160000, 8
 	}
 	s.vms.New = func() any { return newBox() }
-	fams := []string{"mut", "early", "after", "utf8"}
+	fams := []string{"mut", "early", "after", "utf8", "ek", "objdup", "rejunk"}
 	if f := os.Getenv("C04_FAMS"); f != "" {
 		fams = strings.Split(f, ",")
 	}
@@ -374,7 +405,7 @@ func Check(c *core.Ctx) (map[string]any, []string, error) {
 		"tlc_runs": append(tlcStats, map[string]any{"config": "C04Judge", "distinct": jres.states, "judged_trees": jres.judged, "wall_s": jres.wall}),
 		"generated_lines": nLines, "evaluations": s.n.totalParses, "distinct_nontrivial": s.nDistinct, "accept_agreed": s.n.agreeAccept, "reject_agreed": s.n.agreeReject, "outside_es5_skipped": s.n.skip,
 		"known_deviation_class": s.n.dev, "parser_calls_total": s.n.totalParses, "truncations": s.n.truncations, "store_comments_parses": s.n.storeCommentsParses,
-		"file_set_parses": s.n.fileSetParses, "error_positions_compared_with_spec": s.n.posChecked, "junk_inputs": s.n.junk, "junk_accepted": s.n.junkAccepted, "rejected_sources_run_for_side_effects": s.n.sideEffectRuns,
+		"file_set_parses": s.n.fileSetParses, "error_positions_compared_with_spec": s.n.posChecked, "texts_run_on_a_runtime": s.n.runs, "junk_inputs": s.n.junk, "junk_accepted": s.n.junkAccepted, "rejected_sources_run_for_side_effects": s.n.sideEffectRuns,
 		"trees_judged_wellformed": jres.judged, "trees_failing_only_by_known_deviation": jres.dev, "trees_bad": jres.bad,
 		"judge_selftest": jres.self,
 		"rule": "evaluations = parser calls under recover + watchdog; distinct_nontrivial = distinct source texts whose accept/reject classification by Grammar!Classify was compared with the parser; a generated line is one token-level mutant (or early-error seed) with its classification by Grammar!Classify; every parser call is under recover and a 20 s watchdog; accepted trees are logged (nodes with Idx0/Idx1/parent, ast.Walk events) and judged by spec/C04Judge.tla",
